@@ -53,7 +53,7 @@ harness!(v2_reverse_order_small, 42, {
     v2_order_case(1 << 20);
 });
 
-// @harness props=C33 tier=thorough timeout=3000 desc="V2 names sort in reverse version order, all attached u64 versions"
+// @harness props=C33 tier=thorough timeout=900 desc="(attempted; did not finish in 3000 s: numeric vs lexicographic order of 20-digit Horner sums) V2 names sort in reverse version order, all attached u64 versions"
 harness!(v2_reverse_order_full, 42, {
     v2_order_case(1 << 63);
 });
